@@ -22,7 +22,7 @@ theorem ReplStar.accepts {acc : Accepts} {reg : StrRegistry} (hr : ReplacesSound
   | refl => exact ha
   | step hab _ ih => exact ih (hr _ _ hab s ha)
 
-theorem mem_dedupStr {a : String} {xs : List String} : a ∈ dedupStr xs ↔ a ∈ xs := by
+theorem mem_dedupStrX {a : String} {xs : List String} : a ∈ dedupStr xs ↔ a ∈ xs := by
   have : ∀ (xs init : List String),
       a ∈ xs.foldl (fun acc x => if acc.contains x then acc else acc ++ [x]) init ↔ a ∈ init ∨ a ∈ xs := by
     intro xs
@@ -102,7 +102,7 @@ theorem resolve_covers {reg : StrRegistry} (hrank : ReplacesRanked reg) :
   | succ fuel ih =>
     intro ts r h k hk
     rw [resolve] at h
-    have hk' : k ∈ dedupStr ts := mem_dedupStr.2 hk
+    have hk' : k ∈ dedupStr ts := mem_dedupStrX.2 hk
     split at h
     · simp only [Except.ok.injEq] at h
       subst h
@@ -113,7 +113,7 @@ theorem resolve_covers {reg : StrRegistry} (hrank : ReplacesRanked reg) :
       obtain ⟨k2, hk2, hs2⟩ := ih _ r h k1 hk1'
       exact ⟨k2, hk2, hs.trans hs2⟩
 
-theorem resolve_subset {reg : StrRegistry} :
+theorem resolve_subsetX {reg : StrRegistry} :
     ∀ (fuel : Nat) (ts r : List String), resolve reg ts fuel = .ok r → ∀ k ∈ r, k ∈ ts := by
   intro fuel
   induction fuel with
@@ -124,8 +124,8 @@ theorem resolve_subset {reg : StrRegistry} :
     split at h
     · simp only [Except.ok.injEq] at h
       subst h
-      exact mem_dedupStr.1 hk
+      exact mem_dedupStrX.1 hk
     · have := ih _ r h k hk
-      exact mem_dedupStr.1 (List.mem_filter.1 this).1
+      exact mem_dedupStrX.1 (List.mem_filter.1 this).1
 
 end J2M
